@@ -195,7 +195,7 @@ def make_harness(shapes, method_sets):
                     scenario.update(modified=type(n).__name__, field=fname)
                     e.fail("input-tree-modified", scenario=scenario)
         if ref_raised or raised:
-            if bool(ref_raised) != (raised == "rule"):
+            if bool(ref_raised) != (raised == "rule") or raised not in (None, "rule"):
                 scenario.update(raised=raised, reference_raises=ref_raised)
                 e.fail("raise-behaviour-differs", scenario=scenario)
             e.distinct((sno, mset, st, tuple(scenario["actions"])))
@@ -402,6 +402,11 @@ def spec(tier: str, seed: int) -> Spec:
         R("VReq", child=R("VMixLeaf")),
         R("VMixed", first=R("VDiamond"), items=(R("VMixLeaf"),), one=R("VMixLeaf")),
         R("VMany", items=(R("VDiamond"), R("VReq", child=R("VLateMix")))),
+        # node classes that are iterable: a single child stays a single child
+        R("VReq", child=R("VIter", items=(R("VLeaf"), R("VLeaf")))),
+        R("VMixed", first=R("VIter", items=(R("VLeaf"),)), items=(R("VIter"),), one=R("VIter", items=(R("VLeaf"),))),
+        R("VTwoSeq", left=(R("VLeaf"), R("VIter", items=(R("VLeaf"),))), right=(R("VLeaf"),), mid=R("VFalsy")),
+        R("VSlot", kid=R("VTwoSeq", left=(R("VLeaf"),), right=(R("VLeaf"), R("VSlot")))),
     )]
     fams.append(Family("visitor-object-reused", reuse_harness, variables="selectors: rule variant, strict, whether earlier inputs stay alive; 40 transforms by one visitor object per path"))
     fams.append(Family("mixin-in-mro", make_harness(mixed, ["base-class-only", "leaf-class-only", "root-class-only", "sub-leaf-and-leaf", "own-classes"]), variables=var + "; classes with a non-node mixin before / after the node base, and a diamond"))
